@@ -46,6 +46,14 @@ def make_classes():
         def _yatiml_sweeten(cls, node):
             # visible only where A itself is registered with the dump function
             node.set_attribute('kind', 'base')
+
+        @classmethod
+        def _yatiml_savorize(cls, node):
+            # visible only where A itself is registered with the load function
+            if node.is_mapping() and node.has_attribute('x'):
+                x = node.get_attribute('x')
+                if x.is_scalar(int):
+                    node.set_attribute('x', x.get_value() + 100)
     A1 = A
 
     class A:    # noqa: a DIFFERENT class with the same name
@@ -454,6 +462,67 @@ def forced_race(V):
     V.notes['forced_race'] = 'schedule of LoadThreads.RaceIsReachable replayed'
 
 
+def forced_overlap(V):
+    """A call of one load function overlaps a complete call of another one
+    that was created from the same classes but for another document type:
+    the second call runs in another thread while the first is reading its
+    input stream.  Both must give their sequential results."""
+    import io
+    import typing
+    y = Y()
+
+    class Item:
+        def __init__(self, n: int) -> None:
+            self.n = n
+    fns = {'item': (y.load_function(Item), 'n: 1\n'),
+           'items': (y.load_function(typing.List[Item], Item), '- n: 2\n'),
+           'int': (y.load_function(int), '3\n'),
+           'str': (y.load_function(str), 'abc\n'),
+           'dict': (y.load_function(typing.Dict[str, int]), 'a: 4\n')}
+
+    def call(fn, arg):
+        try:
+            v = fn(arg)
+        except Exception as e:  # noqa
+            return ['EXC', type(e).__name__, str(e)[:80]]
+        if isinstance(v, list):
+            return ['list'] + [getattr(i, 'n', i) for i in v]
+        return [type(v).__name__, getattr(v, 'n', v)]
+    seq = {k: call(f, t) for k, (f, t) in fns.items()}
+
+    class Overlapped(io.StringIO):
+        def __init__(self, text, other):
+            io.StringIO.__init__(self, text)
+            self.other = other
+            self.res = None
+
+        def read(self, *a):
+            if self.res is None:
+                box = {}
+                t = threading.Thread(
+                    target=lambda: box.setdefault('r', call(*fns[self.other])))
+                t.start()
+                t.join(20)
+                self.res = box.get('r', ['EXC', 'timeout', ''])
+            return io.StringIO.read(self, *a)
+    n = 0
+    for a in fns:
+        for b in fns:
+            if a == b:
+                continue
+            n += 2
+            s = Overlapped(fns[a][1], b)
+            ra = call(fns[a][0], s)
+            if ra != seq[a] or s.res != seq[b]:
+                V.violation({'part': 'overlap', 'pair': [a, b]},
+                            'load function %r called while load function %r '
+                            'was reading its stream (other thread): results '
+                            '%s / %s, sequentially %s / %s' % (
+                                b, a, ra, s.res, seq[a], seq[b]))
+    V.evaluations += n
+    V.notes['forced_overlap'] = '%d overlapping pairs of calls' % (n // 2)
+
+
 def run(tier, replay=None):
     V = Verdict('C11', tier)
     V.assumptions = [
@@ -511,6 +580,7 @@ def run(tier, replay=None):
     # any yatiml function (the forced race below performs real loads)
     _W['base'] = base_snapshot()
     forced_race(V)
+    forced_overlap(V)
     if base_snapshot() != _W['base']:
         V.violation({'part': 'forced_race'},
                     'loading (the forced racy schedule) changed PyYAML\'s own '
